@@ -28,6 +28,7 @@ def run_engine(engine, casefile, timeout=1800):
 
 GENERATORS = {
     "dd": fmtgen.gen_dd,
+    "elf": fmtgen.gen_elf,
 }
 
 
@@ -37,8 +38,21 @@ def make_case(run, fmt, idx, big=False):
     os.makedirs(d, exist_ok=True)
     lay, entries, info = GENERATORS[fmt](run.rng, big=big)
     img = os.path.join(d, "c%d.img" % idx)
-    fmtgen.write_image(img, info["pgsz"], entries)
     dump = os.path.join(d, "c%d.dump" % idx)
+    if fmt == "elf":
+        fmtgen.write_segs(img, entries)
+        reqs = ["G", "Z0"]
+        for z in (False, True):
+            if z:
+                reqs.append("Z1")
+            small = info["pgsz"] <= 8192
+            reqs += fmtgen.elf_requests(run.rng, info, False, z, limit=30 if small else 8)
+            reqs += fmtgen.elf_requests(run.rng, info, True, z, limit=20 if small else 5)
+        line = "1 %s F=%s L=%s I=%s %s" % (dump, fmt, fmtgen.lay_str(lay), img, " ".join(reqs))
+        info["image"] = img
+        info["dump"] = dump
+        return line, info
+    fmtgen.write_image(img, info["pgsz"], entries)
     reqs = ["G", "Z0"] + fmtgen.page_requests(run.rng, info["pgsz"], info["maxpfn"], info["pfns"],
                                                limit=40 if info["pgsz"] <= 8192 else 16)
     z1 = fmtgen.page_requests(run.rng, info["pgsz"], info["maxpfn"], info["pfns"],
@@ -125,7 +139,10 @@ def check(run):
         print("spec:           " + res["spec"][0])
         compare(run, exe, [line], [{"key": "replay", "image": img, "pfns": []}], res)
         return
-    plan = [("dd", 120 if quick else 4000)]
+    plan = [("dd", 120 if quick else 4000), ("elf", 100 if quick else 6000)]
+    only = os.environ.get("VERIF_C01_FORMATS")
+    if only:
+        plan = [p for p in plan if p[0] in only.split(",")]
     run.cov["rule"] = ("one case = one generated memory image + layout, encoded by the extracted spec encoder, "
                        "opened through the public API; distinct = distinct (layout class, page frame set, methods); "
                        "non-trivial = at least one page present and at least one page-crossing read answered OK")
@@ -150,13 +167,49 @@ def check(run):
         run.cov["engines"]["fmt/" + fmt] = {"generated": n}
 
 
-def run_lines(run, exe, lines):
-    cf = run.casefile("fmt-cases.txt", lines)
-    enc = run_engine("fmt-enc", cf)
-    impl, crashes = core.run_impl_lines(exe, run.work, lines)
-    model = run_engine("fmt", cf)
-    spec = run_engine("fmt-spec", cf)
-    return {"enc": enc, "impl": impl, "model": model, "spec": spec, "crashes": crashes}
+def run_lines(run, exe, lines, jobs=4):
+    """Encode, then run library / model / spec on the same cases.  The cases are
+    split into `jobs` chunks; the three readers of a chunk run concurrently
+    (at most 8 processes at a time)."""
+    from concurrent.futures import ThreadPoolExecutor
+    n = len(lines)
+    jobs = max(1, min(jobs, n))
+    bounds = [(n * j // jobs, n * (j + 1) // jobs) for j in range(jobs)]
+    res = {"enc": [None] * n, "impl": [None] * n, "model": [None] * n, "spec": [None] * n, "crashes": {}}
+
+    def chunk_dir(j):
+        d = os.path.join(run.work, "chunk%d" % j)
+        os.makedirs(d, exist_ok=True)
+        return d
+
+    def casefile(j):
+        lo, hi = bounds[j]
+        p = os.path.join(chunk_dir(j), "fmt-cases.txt")
+        with open(p, "w") as f:
+            for l in lines[lo:hi]:
+                f.write(l + "\n")
+        return p
+
+    def enc(j):
+        lo, hi = bounds[j]
+        res["enc"][lo:hi] = run_engine("fmt-enc", casefile(j))
+
+    def reader(task):
+        j, kind = task
+        lo, hi = bounds[j]
+        if kind == "impl":
+            out, crashes = core.run_impl_lines(exe, chunk_dir(j), lines[lo:hi])
+            res["impl"][lo:hi] = out
+            for k, v in crashes.items():
+                res["crashes"][lo + k] = v
+        else:
+            res[kind][lo:hi] = run_engine("fmt" if kind == "model" else "fmt-spec",
+                                          os.path.join(chunk_dir(j), "fmt-cases.txt"))
+
+    with ThreadPoolExecutor(max_workers=8) as ex:
+        list(ex.map(enc, range(jobs)))
+        list(ex.map(reader, [(j, k) for j in range(jobs) for k in ("impl", "model", "spec")]))
+    return res
 
 
 def compare(run, exe, lines, infos, res):
